@@ -98,6 +98,7 @@ class prepend_expansion_view:
         # the same fact read from the new list's side (a caller that asks about position q of the new list finds it by
         # matching at(new, q), without arithmetic inside the pattern)
         yield "positions-after-the-new-run-come-from-the-old-list", forall(r, r + L, lambda q: aeq(at(new, q), at(old, q - r)))
+        yield "runs-stay-positive", implies(both(r >= 1, all_runs_at_least(old, 1)), all_runs_at_least(new, 1))
 
 
 @contract(UT + "rle_append_modify", property=("C17", "C02"), alias="expansion-view", replayable=False)
@@ -116,6 +117,7 @@ class append_expansion_view:
         yield "length-grows-by-the-run", total(new) == L + r
         yield "old-positions-keep-their-attribute", forall(0, L, lambda p: aeq(at(new, p), at(old, p)))
         yield "new-positions-carry-the-attribute", forall(L, L + r, lambda p: aeq(at(new, p), at_))
+        yield "runs-stay-positive", implies(both(r >= 1, all_runs_at_least(old, 1)), all_runs_at_least(new, 1))
 
 
 def _cut(a):
@@ -162,4 +164,6 @@ class trim_text_attr_cs:
         yield "left-stand-in-space-carries-the-attribute-of-the-cut-character", implies(pl == 1, aeq(at(ra, 0), at(a.attr, spos - 1)))
         yield "right-stand-in-space-carries-the-attribute-of-the-cut-character", implies(pr == 1, aeq(at(ra, pl + n), at(a.attr, epos)))
         yield "stand-in-spaces-are-in-the-default-charset", both(implies(pl == 1, opt_isnone(at(rc, 0))), implies(pr == 1, opt_isnone(at(rc, pl + n))))
+        # (what rle_product, the next step of TextCanvas.content, needs of the two lists: a zero-length run would end the product early)
+        yield "no-zero-length-run", both(all_runs_at_least(ra, 1), all_runs_at_least(rc, 1))
         yield "operands-unchanged", both(unchanged(a, "attr"), unchanged(a, "cs"))
